@@ -134,6 +134,27 @@ def build(variant, quiet=True):
         lock.close()
 
 
+def build_ref():
+    """the reference helper (Botan), independent of the SUT"""
+    os.makedirs(os.path.join(BUILD, "ref"), exist_ok=True)
+    src = os.path.join(VERIF, "engine/ref/refsh.cpp")
+    out = os.path.join(BUILD, "ref", "refsh")
+    if not os.path.exists(out) or os.path.getmtime(out) < os.path.getmtime(src):
+        lock = open(os.path.join(BUILD, ".lock.ref"), "w")
+        fcntl.flock(lock, fcntl.LOCK_EX)
+        try:
+            r = subprocess.run(["g++", "-std=c++17", "-O2", "-w", "-I/usr/include/botan-2", src, "-o", out + ".tmp", "-lbotan-2"],
+                               stdout=subprocess.PIPE, stderr=subprocess.STDOUT, text=True)
+            if r.returncode != 0:
+                sys.stderr.write(r.stdout[-4000:])
+                raise SystemExit("build of refsh failed")
+            os.replace(out + ".tmp", out)
+        finally:
+            fcntl.flock(lock, fcntl.LOCK_UN)
+            lock.close()
+    return out
+
+
 if __name__ == "__main__":
     for v in sys.argv[1:] or ["ossl-plain"]:
-        print(build(v, quiet=False))
+        print(build_ref() if v == "ref" else build(v, quiet=False))
